@@ -426,7 +426,9 @@ class ClientWebSocketResponse(Generic[_DecodeText]):
                 self._close_code = WSCloseCode.ABNORMAL_CLOSURE
                 return WS_CLOSED_MESSAGE
             except WebSocketError as exc:
-                self._close_code = exc.code
+                # The close frame carries exc.code; what is reported is an
+                # abnormal closure, as no close frame came from the peer.
+                self._close_code = WSCloseCode.ABNORMAL_CLOSURE
                 await self.close(code=exc.code)
                 return WSMessageError(data=exc)
             except Exception as exc:
